@@ -172,6 +172,11 @@ func (w *vfWorld) mint(a vfAction) {
 		return false
 	}
 	for _, c := range cookies {
+		if ms.KeyB {
+			w.noteOrigin(c.Value, 2)
+		} else {
+			w.noteOrigin(c.Value, 1)
+		}
 		if c.MaxAge >= 0 && keep(c.Name) {
 			b.jar[c.Name] = c.Value
 		}
